@@ -45,16 +45,33 @@ def run(chk):
         return fn
     for tag, args in jobs:
         tasks.append(("j:" + tag, job(tag, args)))
+
+    # fault enumeration: one transient read fault at (a sample of) every position of every party's stream in every protocol
+    def faults():
+        rd = vlib.scratch(chk.prop, "drv-faults")
+        out = os.path.join(rd, "trace.ndjson")
+        vlib.run_driver(binary, ["-n", "0", "-faults", "12" if chk.quick else "400", "-seed", str(chk.seed), "-out", out])
+        rows = vlib.read_ndjson(out)
+        for r in rows[1:]:
+            stats["faults"] = stats.get("faults", 0) + 1
+            k = r["proto"] + ":fault"
+            stats["by"][k] = stats["by"].get(k, 0) + 1
+        chk.sample({"job": "faults", "event": rows[len(rows) // 2]}, cap=4)
+        return vlib.validate_chunks(chk, "trace-faults", SPEC, "ProvenanceTrace", "ProvenanceTrace.cfg", rows[1:], header=rows[0], chunk=2000,
+                                    key_of=lambda r: r.get("k"), max_workers=2)
+    tasks.append(("j:faults", faults))
     res = vlib.parallel(tasks, max_workers=6)
     for n in ["mc:r1", "mc:r2"] + ["mc:" + c for c in srcs]:
         chk.add_mc("Provenance/" + n, res[n])
         if res[n].violation:
             chk.violation("model:" + res[n].violation, "Provenance.tla violates %s" % res[n].violation, {"cex": res[n].cex})
-    chk.cov["traces_validated_against_impl"] = stats["cmp"]
-    chk.cov["evaluations"] = stats["cmp"]
-    chk.cov["distinct_nontrivial"] = stats["cmp"]
+    chk.cov["traces_validated_against_impl"] = stats["cmp"] + stats.get("faults", 0)
+    chk.cov["evaluations"] = stats["cmp"] + stats.get("faults", 0)
+    chk.cov["distinct_nontrivial"] = stats["cmp"] + stats.get("faults", 0)
+    chk.cov["fault_positions"] = stats.get("faults", 0)
     chk.cov["comparisons"] = stats["by"]
-    chk.cov["rule"] = "one case = one pair of real protocol runs (identical streams, or one party's protocol stream replaced), all message leaves and outputs compared as tokens"
+    chk.cov["rule"] = ("one case = one pair of real protocol runs (identical streams, or one party's protocol stream replaced), all message leaves and outputs compared as tokens; "
+                       "or one run with a transient read fault at one position of one party's stream")
     chk.assumptions += ["toy group with a 61-bit modulus (no discrete logs; tokens only); curve-specific protocols (DKLs23, Lindell17, Boldyreva, OT/VOLE) are not covered",
                         "the sub-proofs of AND-composed sigma proofs draw from the party's reader in goroutine scheduling order (observed; see DESIGN.md); those leaves are exempt from run-to-run equality only",
                         "the set-up stream (session establishment, initial key material) is held fixed; the session scenario varies the session stream itself"]
